@@ -533,6 +533,19 @@ class MiniInterp:
         else:
             raise Unknown(f"assignment target {type(t).__name__}")
 
+    @staticmethod
+    def plain(v, depth=0) -> bool:
+        """a value made of Python data only (no symbolic part): an error of a native operation on it is the program's"""
+        if v is None or isinstance(v, (bool, int, float, str, bytes)):
+            return True
+        if depth > 6:
+            return False
+        if type(v) in (list, tuple):
+            return all(MiniInterp.plain(x, depth + 1) for x in v)
+        if type(v) is dict:
+            return all(MiniInterp.plain(k, depth + 1) and MiniInterp.plain(x, depth + 1) for k, x in v.items())
+        return False
+
     # -------------------------------------------------------------- expressions
     def key(self, k):
         """dictionary key: symbolic objects are keyed by identity (a project class with its own __eq__ as a
@@ -578,7 +591,12 @@ class MiniInterp:
         if isinstance(coll, ISet):
             return any(self.equal(x, a) for x in coll.xs)
         if isinstance(coll, dict):
-            return self.key(a) in coll
+            try:
+                return self.key(a) in coll
+            except TypeError:
+                if self.plain(a):
+                    raise PyRaise("TypeError")        # unhashable key
+                raise Unknown("membership of this value in a dictionary")
         if isinstance(coll, str):
             if not isinstance(a, str):
                 raise PyRaise("TypeError")
@@ -665,6 +683,8 @@ class MiniInterp:
             return list(v.xs)
         if isinstance(v, Sym) and getattr(v, "tuple_order", None):
             return [v.fields[k] for k in v.tuple_order]
+        if v is None or isinstance(v, (bool, int, float)):
+            raise PyRaise("TypeError")               # not iterable
         raise Unknown(f"iteration over {type(v).__name__}")
 
     def binop(self, op, a, b, node):
@@ -710,6 +730,8 @@ class MiniInterp:
         except ZeroDivisionError:
             raise PyRaise("ZeroDivisionError", node)
         except TypeError:
+            if self.plain(a) and self.plain(b):
+                raise PyRaise("TypeError", node)
             raise Unknown("binary operator on these operands")
         raise Unknown(f"operator {type(op).__name__}")
 
@@ -806,6 +828,8 @@ class MiniInterp:
                 if kk not in obj.items:
                     obj.items[kk] = Sym(f"{obj.name}[{k.name if isinstance(k, Sym) else kk}]", _open=True)
                 return obj.items[kk]
+            if obj is None or isinstance(obj, (bool, int, float)):
+                raise PyRaise("TypeError", n)        # None[...] / 3[...]: not subscriptable
             raise Unknown(f"subscript of {type(obj).__name__}")
         if isinstance(n, ast.Attribute):
             obj = self.ev(n.value, env, fi)
@@ -921,7 +945,11 @@ class MiniInterp:
         try:
             return {ast.Eq: lambda: a == b, ast.NotEq: lambda: a != b, ast.Lt: lambda: a < b, ast.LtE: lambda: a <= b,
                     ast.Gt: lambda: a > b, ast.GtE: lambda: a >= b}[type(op)]()
-        except (KeyError, TypeError):
+        except TypeError:
+            if self.plain(a) and self.plain(b):
+                raise PyRaise("TypeError")
+            raise Unknown("comparison")
+        except KeyError:
             raise Unknown("comparison")
 
     def getattr(self, obj, attr, fi, node):
@@ -1040,6 +1068,8 @@ class MiniInterp:
                 return r
         if t in SAFE_METHODS and attr in SAFE_METHODS[t]:
             return T("native", obj, attr)
+        if (obj is None or t in (int, float, bool, str, bytes, list, dict, tuple, set)) and not hasattr(t, attr):
+            raise PyRaise("AttributeError", node)        # e.g. None.items(), "text".keys(): the program's error, not the model's
         raise Unknown(f"attribute {attr} of {t.__name__}")
 
     def global_name(self, name, fi: FuncInfo):
